@@ -4,7 +4,7 @@
    modelled streams; fields carry Ok/Err/Panic/OutOfFuel, the ledger every Vec::with_capacity.
    Every loop of the model runs on fuel |file| + 1 ([fuel_of]). *)
 From RM Require C08.Model C08.Proofs.
-From RM Require Import C01.Model C01.Proofs C01.Driver C01.Final C01.Agree C01.QModel C01.QProofs C01.LModel C01.LProofs C01.LayoutPins C01.ConstIndex C01.SModel C01.SProofs Gen.C01Sites C01.Sites C01.SitesCheck.
+From RM Require Import C01.Model C01.Proofs C01.Driver C01.Final C01.Agree C01.QModel C01.QProofs C01.LModel C01.LProofs C01.LayoutPins C01.ConstIndex C01.SModel C01.SProofs C01.PModel C01.PProofs C01.CpuPins Gen.C01Sites C01.Sites C01.SitesCheck.
 Open Scope Z_scope.
 
 (* No modelled site panics, for any byte string, in debug and release builds (fixed code). *)
@@ -255,6 +255,34 @@ Theorem c01_stack_fallback_sound : forall p descs addr i, wf_descs descs ->
 Proof. exact stack_fallback_sound. Qed.
 Print Assumptions c01_stack_fallback_sound.
 
+(* ---- round 5, second pass: the stack words of MinidumpThread::print.
+   For ANY processor_architecture value of the system info (or no system info) and any stack length: the word loop neither traps
+   nor runs out of fuel, it writes len / chunk words (chunks_exact drops the remainder) of 4 or 8 bytes, and the chunk it cuts has
+   the length of the array `chunk.try_into().unwrap()` must fill. The width is the CPU's pointer width, not the register size of
+   the thread's context record (CONTEXT_MIPS / CONTEXT_SPARC: 64-bit registers, 32-bit pointers). *)
+Theorem c01_thread_print_words_total : forall p arch len, 0 <= len < T62 ->
+  let w := print_width arch in
+  (exists n, stack_words p (Z.to_nat len + 1) w len 0 0 = Ok n /\ n = len / chunk_size w /\ chunk_size w * n <= len) /\
+  stack_print p (Z.to_nat len + 1) w len 0 = Ok tt /\
+  chunk_size w = array_len w /\ (chunk_size w = 4 \/ chunk_size w = 8).
+Proof. exact thread_print_words_total. Qed.
+Print Assumptions c01_thread_print_words_total.
+(* the compared field TSW (per thread of the first eight: "No stack" or the number of words written and their width, the stack being
+   the thread's own or the region of Minidump::get_memory found at start_of_memory_range) never traps, for every byte string *)
+Theorem c01_thread_stack_words_total : forall p file, wf_bytes file -> blen file < T62 ->
+  forall tag f, In (tag, f) (run_prints p file) -> (forall t, f <> FPan t) /\ f <> FNoFuel.
+Proof. exact run_prints_total. Qed.
+Print Assumptions c01_thread_stack_words_total.
+(* the CPU tables of PModel.v and the chunk / array lengths of Model.stack_print ARE the code's: Gen/C01Cpu.v is regenerated by
+   translate/c01_cpu.py from Cpu::from_processor_architecture, Cpu::pointer_width, PointerWidth::size_in_bytes and the word loop
+   of MinidumpThread::print; the last conjunct is a statement about the generated tables alone *)
+Theorem c01_cpu_tables_pinned : cpu_pins_ok = true /\
+  (forall arch, cpu_name (cpu_of_arch arch) = gen_cpu arch) /\
+  (forall arch, gen_width arch = Some (gw (print_width arch))) /\
+  (forall arch, exists w n, gen_width arch = Some w /\ gen_chunk w = Some n /\ gen_array w = Some n /\ (n = 4 \/ n = 8)).
+Proof. exact (conj cpu_pins (conj cpu_of_arch_pinned (conj width_pinned gen_chunk_fills_array))). Qed.
+Print Assumptions c01_cpu_tables_pinned.
+
 (* ---- round 5: the file layout the models read with — 35 record sizes, 76 field offsets/widths (nested location descriptors
    included), 5 array lengths — equals what Gen/Layouts.v says, which translate/format_layouts.py regenerates from the struct
    definitions of minidump-common/src/format.rs on every run; and every row of Model.ctx_table (CONTEXT_* size, offset and width
@@ -271,8 +299,12 @@ Print Assumptions c01_layout_pinned.
    source on every run: Gen.C01Sites.const_index_sites) is below the length of the array it indexes; the lengths are those of
    the struct definitions of format.rs (Gen/Layouts.v): exception_information[k], data4[k], the register arrays of the
    CONTEXT_* structs *)
-Theorem c01_const_indices_in_bounds : forallb const_index_ok const_index_sites = true.
-Proof. exact const_indices_in_bounds. Qed.
+(* second pass: "constant" now includes the discriminants of the fieldless *RegisterNumbers enums of format.rs used as indices
+   (`self.iregs[md::MipsRegisterNumbers::StackPointer as usize]`, `raw.iregs[*reg as usize]` over a const list of such) and literal range
+   bounds (`raw.iregs[..29]`, `uuid[8..]`); and a group of C01/Sites.v is classified Covered by this theorem only if ALL its index sites
+   are constant (Gen.C01Sites.index_group_counts) *)
+Theorem c01_const_indices_in_bounds : forallb const_index_ok const_index_sites = true /\ forallb const_index_row_ok site_table = true.
+Proof. exact (conj const_indices_in_bounds covered_index_groups_constant). Qed.
 Print Assumptions c01_const_indices_in_bounds.
 
 (* ---- round 4: every trap / loop / allocation / guard site of minidump/src and minidump-common/src found by
@@ -344,7 +376,8 @@ Definition c01_cover_index :=
    c01_header_total, c01_exception_print_total, c01_xstate_iter_total, c01_misc_info_total, c01_thread_contexts_print_total,
    c01_memory_read_in_bounds, c01_linux_kv_bounded, c01_crashpad_info_total, c01_mac_crash_info_total, c01_fixed_streams_total,
    c01_print_sites_total, c01_crash_queries_total, c01_memory_range_sound, c01_last_error_in_bounds, c01_crash_address_total,
-   c01_elf_debug_id_reads, c01_address_lookup_total, c01_get_thread_index_total, c01_lookups_total, c01_layout_pinned, c01_unloaded_lookup_in_range, c01_const_indices_in_bounds, c01_stack_source_total, c01_stack_fallback_sound).
+   c01_elf_debug_id_reads, c01_address_lookup_total, c01_get_thread_index_total, c01_lookups_total, c01_layout_pinned, c01_unloaded_lookup_in_range, c01_const_indices_in_bounds, c01_stack_source_total, c01_stack_fallback_sound,
+   c01_thread_print_words_total, c01_thread_stack_words_total, c01_cpu_tables_pinned).
 Example c01_nonvacuous_queries :
   memory_range Debug 18446744073709551599 16 = Ok (Some (18446744073709551599, 18446744073709551614)) /\
   memory_range Debug 18446744073709551600 16 = Ok None /\ memory_range Debug 5 0 = Ok None /\
@@ -374,4 +407,24 @@ Proof.
   cbv zeta. split.
   - repeat constructor; cbn; unfold C08.Proofs.wf_range, two64; cbn; repeat split; try discriminate; reflexivity.
   - vm_compute. repeat split; reflexivity.
+Qed.
+
+(* round 5, second pass: a MIPS dump (CONTEXT_MIPS has 64-bit registers, the CPU 32-bit pointers): thread 7 owns a 23-byte stack
+   (five 4-byte words, the last three bytes are dropped), thread 8 has no stack of its own and finds the 16-byte region of the memory
+   list that contains its start_of_memory_range (four words); with an architecture the reader does not know the words are 8 bytes *)
+Definition nv_mips_dump : bytes := [77; 68; 77; 80; 147; 167; 0; 0; 3; 0; 0; 0; 32; 0; 0; 0; 0; 0; 0; 0; 0; 0; 0; 80; 0; 0; 0; 0; 0; 0; 0; 0; 7; 0; 0; 0; 56; 0; 0; 0; 108; 0; 0; 0; 3; 0; 0; 0; 100; 0; 0; 0; 164; 0; 0; 0; 5; 0; 0; 0; 20; 0; 0; 0; 8; 1; 0; 0; 0; 1; 2; 3; 4; 5; 6; 7; 8; 9; 10; 11; 12; 13; 14; 15; 16; 17; 18; 19; 20; 21; 22; 0; 0; 1; 2; 3; 4; 5; 6; 7; 8; 9; 10; 11; 12; 13; 14; 15; 1; 0; 6; 0; 2; 15; 4; 1; 10; 0; 0; 0; 0; 0; 0; 0; 97; 74; 0; 0; 2; 0; 0; 0; 0; 0; 0; 0; 0; 0; 0; 0; 71; 101; 110; 117; 105; 110; 101; 73; 110; 116; 101; 108; 195; 6; 3; 0; 255; 251; 235; 191; 0; 0; 0; 0; 2; 0; 0; 0; 7; 0; 0; 0; 0; 0; 0; 0; 0; 0; 0; 0; 0; 0; 0; 0; 0; 0; 0; 0; 0; 0; 0; 0; 0; 112; 0; 0; 0; 0; 0; 0; 23; 0; 0; 0; 68; 0; 0; 0; 0; 0; 0; 0; 0; 0; 0; 0; 8; 0; 0; 0; 0; 0; 0; 0; 0; 0; 0; 0; 0; 0; 0; 0; 0; 0; 0; 0; 0; 0; 0; 0; 4; 144; 0; 0; 0; 0; 0; 0; 0; 0; 0; 0; 0; 0; 0; 0; 0; 0; 0; 0; 0; 0; 0; 0; 1; 0; 0; 0; 0; 144; 0; 0; 0; 0; 0; 0; 16; 0; 0; 0; 92; 0; 0; 0].
+Example c01_nonvacuous_stack_words :
+  wf_bytes nv_mips_dump /\ blen nv_mips_dump < T62 /\
+  run_stacks Debug nv_mips_dump = [(38, FOk [1; -2; 0]); (39, FErr EStreamNotFound)] /\
+  run_prints Debug nv_mips_dump = [(40, FOk [16 * 5 + 4; 16 * 4 + 4])] /\
+  stack_words Debug 100 (print_width (Some 1)) 23 0 0 = Ok 5 /\
+  print_width (Some 32769) = Bits32 /\ print_width (Some 32772) = Bits64 /\ print_width (Some 12345) = BitsUnknown /\
+  thread_words Debug nv_mips_dump (print_width (Some 12345)) (Some 23) = Ok (16 * 2 + 8) /\
+  stack_len LE [(4096, 16)] [] 1 = Pan PANIC_LOOKUP_INDEX /\
+  (* the constant-index table: 23 groups rest on it, 440 sites; a group with a variable index is not "fully constant" *)
+  Nat.ltb 20 const_index_rows = true /\ Nat.ltb 420 const_index_site_count = true /\
+  nv_mips_group_constant = true /\ nv_exc_print_group_constant = false /\ nv_arm_index_16_rejected = true.
+Proof.
+  split; [apply wf_bytes_dec; vm_compute; reflexivity|].
+  vm_compute. repeat split; reflexivity.
 Qed.
